@@ -113,7 +113,7 @@ def Expr.containsNumeric : Expr → Bool
   | .val _ _ => false
   | .func0 _ f => f.isNumeric
   | .func _ f l _ => f.isNumeric || l.containsNumeric
-  | .arith l _ _ => l.containsNumeric
+  | .arith _ _ _ => true      -- the result of an arithmetic operation is a number (D76 fix)
   | .cmp l _ _ => l.containsNumeric
   | .logic l _ _ => l.containsNumeric
 
